@@ -149,8 +149,26 @@ var c04Spec = &histSpec{Prop: "C04", Alphabet: c04Alphabet, Check: func(cfg Rout
 	c04Views("C04", cfg, hist, r, t, c, outc)
 }}
 
+// c04SplitAlphabet: routes that split the literal text after one parameter ({x}/b + c, d): removals re-join the
+// nodes, later registrations split them again - the OPTIONS/405 handlers made for a node must follow its method
+// set through all of that.
+func c04SplitAlphabet() []Op {
+	var ops []Op
+	pool := []string{"/p/{x}/bc", "/p/{x}/b", "/p/{x}/bd"}
+	for _, p := range pool {
+		ops = append(ops, Op{K: "handle", P: p, Ms: []string{"GET"}}, Op{K: "handle", P: p, Ms: []string{"POST"}})
+	}
+	for _, p := range pool {
+		ops = append(ops, Op{K: "remove", P: p}, Op{K: "remove", P: p, Ms: []string{"GET"}})
+	}
+	return append(ops, Op{K: "pclean", P: "/p/{x}/bd"})
+}
+
+var c04SplitSpec = &histSpec{Prop: "C04", Alphabet: c04SplitAlphabet, Check: c04Spec.Check}
+
 func init() {
 	c04Spec.register("c04/expand")
+	c04SplitSpec.register("c04/expand-split")
 	explore.Register(&explore.Check{ID: "C04", Run: func(rc *explore.RunCtx) {
 		depth := 4
 		if !rc.Quick() {
@@ -161,10 +179,15 @@ func init() {
 		rc.Assume = append(rc.Assume,
 			"histories over the C04 alphabet (5 patterns that split one another, methods GET/POST/PUT/TRACE, removals incl. never-registered methods, Clean, Prefix.Clean) up to the depth bound, with and without WithTrace",
 			"views compared as sets: Allow of OPTIONS and 405 responses (as sent), Node().Methods(), Node().AllowHeader(), Routes(); OPTIONS * against the union of registered methods (HEAD optional)",
+			"a second family over three routes that split the literal text after one parameter (registrations, removals that re-join nodes, Prefix.Clean): every history up to the depth bound literally (no state merging), and one level deeper with merging under WithTrace",
 			"the first execution in each worker process starts from the empty history, so a fresh router is observed with a virgin process-wide memo")
 		for _, cfg := range []RouterCfg{{}, {Trace: true}} {
 			explore.BFS(rc, "c04/expand", histCfg{Router: cfg}, depth, true, "C04 "+cfg.String())
 		}
 		explore.BFS(rc, "c04/expand", histCfg{Router: RouterCfg{Lock: true, Trace: true}}, depth-1, true, "C04 lock+trace")
+		// split and re-joined literal suffixes; literally every history (no state merging: a handler that still
+		// points at a node the tree no longer contains is invisible in the tree's own shape)
+		explore.BFS(rc, "c04/expand-split", histCfg{Router: RouterCfg{}}, depth, false, "C04 split suffix, no-dedup")
+		explore.BFS(rc, "c04/expand-split", histCfg{Router: RouterCfg{Trace: true}}, depth+1, true, "C04 split suffix, trace")
 	}})
 }
